@@ -64,7 +64,27 @@ var smPools = []smPool{
 }
 
 // value table, must equal ValTab of spec/ZKV.tla (the reset line carries it; the trace spec checks)
-var smValTab = [][]int{{}, {1}, {2}, {1, 0}, {10}, {10, 12, 10}, {11, 3}, {9, 9}}
+var smValTab = [][]int{{}, {1}, {2}, {1, 0}, {10}, {10, 12, 10}, {11, 3}, {9, 9},
+	{9, 2, 2, 3, 3, 7, 2, 0, 3, 6, 8, 5, 4, 7, 7, 5, 8, 0, 7},     // int64 max
+	{9, 2, 2, 3, 3, 7, 2, 0, 3, 6, 8, 5, 4, 7, 7, 5, 8, 0, 6},     // int64 max - 1
+	{11, 9, 2, 2, 3, 3, 7, 2, 0, 3, 6, 8, 5, 4, 7, 7, 5, 8, 0, 8}} // int64 min
+
+// the value ids the random generators draw from (the int64 extremes are used by scripts only, see
+// recorded finding kv-incr-overflow-wraps)
+const smGenVals = 8
+
+// integer codes of ZKV.tla: IMAX, IMAX1, IMIN
+func intText(n int) []byte {
+	switch n {
+	case 2000000001:
+		return []byte("9223372036854775807")
+	case 2000000002:
+		return []byte("9223372036854775806")
+	case -2000000001:
+		return []byte("-9223372036854775808")
+	}
+	return []byte(strconv.Itoa(n))
+}
 
 // ---------------------------------------------------------------- commands
 
@@ -212,14 +232,64 @@ func (d *smDrv) decSyms(b []byte) []int {
 	return s
 }
 
-// score in half units <-> redis text
-func scoreText(s2 int) string { return strconv.FormatFloat(float64(s2)/2, 'g', -1, 64) }
+// score code <-> redis text / float.  |code| <= 1000000: the score code/2 (half units); beyond that the
+// symbolic extreme classes of ZKV.tla (TINY, E9E18, E263, E1E19, EINF, NEGZERO), negative = negated.
+const (
+	scTiny    = 1000001
+	sc9e18    = 1000002
+	sc2p63    = 1000003
+	sc1e19    = 1000004
+	scInf     = 1000005
+	scNegZero = 1000006
+)
+
+var scExtText = map[int]string{scTiny: "1e-300", sc9e18: "9e18", sc2p63: "9223372036854775808", sc1e19: "1e19", scInf: "inf"}
+var scExtVal = map[int]float64{scTiny: 1e-300, sc9e18: 9e18, sc2p63: 9223372036854775808, sc1e19: 1e19, scInf: math.Inf(1)}
+
+func scoreText(c int) string {
+	a := c
+	if a < 0 {
+		a = -a
+	}
+	if a == scNegZero {
+		return "-0"
+	}
+	if t, ok := scExtText[a]; ok {
+		if c < 0 {
+			return "-" + t
+		}
+		if a == scInf {
+			return "+inf"
+		}
+		return t
+	}
+	return strconv.FormatFloat(float64(c)/2, 'g', -1, 64)
+}
 func scoreHalf(f float64) int {
+	for c, v := range scExtVal {
+		if f == v {
+			return c
+		}
+		if f == -v {
+			return -c
+		}
+	}
 	x := f * 2
-	if x != math.Trunc(x) || math.Abs(x) > 1e9 {
+	if x != math.Trunc(x) || math.Abs(x) > 1e6 {
 		return 987654
 	}
 	return int(x)
+}
+
+// index arguments: +-2000000000 stand for the int64 extremes
+func idxText(n int) []byte {
+	switch n {
+	case 2000000000:
+		return []byte("9223372036854775807")
+	case -2000000000:
+		return []byte("-9223372036854775808")
+	}
+	return []byte(strconv.Itoa(n))
 }
 
 // ---------------------------------------------------------------- time
@@ -344,6 +414,9 @@ func (d *smDrv) writeArgs(c *smCmd) [][]byte {
 		}
 		return v
 	case "setex":
+		if a[0] == 2000000001 {
+			return [][]byte{b("setex"), k, intText(a[0]), d.val(a[1])}
+		}
 		return [][]byte{b("setex"), k, it(a[0] * int(d.hscale)), d.val(a[1])}
 	case "mset":
 		return [][]byte{b("mset"), k, d.val(a[0]), d.key(a[1]), d.val(a[2])}
@@ -354,10 +427,13 @@ func (d *smDrv) writeArgs(c *smCmd) [][]byte {
 	case "del2":
 		return [][]byte{b("del"), k, d.key(a[0])}
 	case "incrby", "decrby":
-		return [][]byte{b(c.C), k, it(a[0])}
+		return [][]byte{b(c.C), k, intText(a[0])}
 	case "setrange":
 		return [][]byte{b("setrange"), k, it(a[0]), d.val(a[1])}
 	case "expire", "hexpire", "lexpire", "sexpire", "zexpire":
+		if a[0] == 2000000001 {
+			return [][]byte{b(c.C), k, intText(a[0])}
+		}
 		return [][]byte{b(c.C), k, it(a[0] * int(d.hscale))}
 	case "hset", "hsetnx":
 		return [][]byte{b(c.C), k, d.sub(a[0]), d.val(a[1])}
@@ -368,7 +444,7 @@ func (d *smDrv) writeArgs(c *smCmd) [][]byte {
 	case "hdel2":
 		return [][]byte{b("hdel"), k, d.sub(a[0]), d.sub(a[1])}
 	case "hincrby":
-		return [][]byte{b("hincrby"), k, d.sub(a[0]), it(a[1])}
+		return [][]byte{b("hincrby"), k, d.sub(a[0]), intText(a[1])}
 	case "lpush", "rpush":
 		return [][]byte{b(c.C), k, d.val(a[0])}
 	case "lpush2":
@@ -376,9 +452,9 @@ func (d *smDrv) writeArgs(c *smCmd) [][]byte {
 	case "rpush2":
 		return [][]byte{b("rpush"), k, d.val(a[0]), d.val(a[1])}
 	case "lset":
-		return [][]byte{b("lset"), k, it(a[0]), d.val(a[1])}
+		return [][]byte{b("lset"), k, idxText(a[0]), d.val(a[1])}
 	case "ltrim":
-		return [][]byte{b("ltrim"), k, it(a[0]), it(a[1])}
+		return [][]byte{b("ltrim"), k, idxText(a[0]), idxText(a[1])}
 	case "sadd2":
 		return [][]byte{b("sadd"), k, d.sub(a[0]), d.sub(a[1])}
 	case "srem2":
@@ -394,7 +470,7 @@ func (d *smDrv) writeArgs(c *smCmd) [][]byte {
 	case "zincrby":
 		return [][]byte{b("zincrby"), k, sc(a[0]), d.sub(a[1])}
 	case "zremrangebyrank":
-		return [][]byte{b(c.C), k, it(a[0]), it(a[1])}
+		return [][]byte{b(c.C), k, idxText(a[0]), idxText(a[1])}
 	case "zremrangebyscore":
 		lo, hi := d.scoreBounds(a)
 		return [][]byte{b(c.C), k, lo, hi}
@@ -441,6 +517,14 @@ var (
 )
 
 func rInt(n int64) []int {
+	switch n {
+	case math.MaxInt64:
+		return []int{1, 2000000001}
+	case math.MaxInt64 - 1:
+		return []int{1, 2000000002}
+	case math.MinInt64:
+		return []int{1, -2000000001}
+	}
 	if n > 1<<30 || n < -(1<<30) {
 		return []int{1, 987654321}
 	}
@@ -540,6 +624,16 @@ func smFixNilOk(c *smCmd, r []int) []int {
 }
 
 // execute a read command through the store's read API (what the redis read handlers call)
+func idx64(n int) int64 {
+	switch n {
+	case 2000000000:
+		return math.MaxInt64
+	case -2000000000:
+		return math.MinInt64
+	}
+	return int64(n)
+}
+
 func (d *smDrv) read(c *smCmd) (r []int) {
 	defer func() {
 		if e := recover(); e != nil {
@@ -582,7 +676,7 @@ func (d *smDrv) read(c *smCmd) (r []int) {
 		vs, _ := st.MGet(k, d.key(a[0]))
 		return d.rVals(vs)
 	case "getrange":
-		v, err := st.GetRange(k, int64(a[0]), int64(a[1]))
+		v, err := st.GetRange(k, idx64(a[0]), idx64(a[1]))
 		if e(err) {
 			return rErr
 		}
@@ -682,7 +776,7 @@ func (d *smDrv) read(c *smCmd) (r []int) {
 		}
 		return rInt(n)
 	case "lindex":
-		v, err := st.LIndex(k, int64(a[0]))
+		v, err := st.LIndex(k, idx64(a[0]))
 		if e(err) {
 			return rErr
 		}
@@ -691,7 +785,7 @@ func (d *smDrv) read(c *smCmd) (r []int) {
 		}
 		return d.rBulk(v)
 	case "lrange":
-		vs, err := st.LRange(k, int64(a[0]), int64(a[1]))
+		vs, err := st.LRange(k, idx64(a[0]), idx64(a[1]))
 		if e(err) {
 			return rErr
 		}
@@ -751,7 +845,7 @@ func (d *smDrv) read(c *smCmd) (r []int) {
 		}
 		return rInt(n)
 	case "zrange", "zrevrange":
-		ps, err := st.ZRangeGeneric(k, a[0], a[1], c.C == "zrevrange")
+		ps, err := st.ZRangeGeneric(k, int(idx64(a[0])), int(idx64(a[1])), c.C == "zrevrange")
 		if e(err) {
 			return rErr
 		}
@@ -1564,6 +1658,7 @@ func (d *smDrv) bigRun(n int) {
 type smGen struct {
 	only   []string // if set: choose uniformly among these command names
 	overlong bool   // now and then name an over-long field/member
+	extreme  bool   // numeric extremes: symbolic score classes, int64 min/max indexes
 	rng    *rand.Rand
 	nk, ns int
 	types  string
@@ -1641,16 +1736,25 @@ func (g *smGen) next() *smCmd {
 	if r.Intn(4) == 0 {
 		c.P = 4 + r.Intn(1000)
 	}
-	vid := func() int { return 1 + r.Intn(len(smValTab)) }
+	vid := func() int { return 1 + r.Intn(smGenVals) }
 	sub := func() int { return 1 + r.Intn(g.ns) }
 	idx := func() int {
 		if r.Intn(12) == 0 {
+			if g.extreme {
+				return []int{-100, 100, 2000000000, -2000000000}[r.Intn(4)]
+			}
 			return []int{-100, 100}[r.Intn(2)]
 		}
 		return r.Intn(11) - 5
 	}
 	dur := func() int { return 1 + r.Intn(3) }
 	scores := []int{-3, 0, 1, 2, 3, 4, 7}
+	bounds := scores
+	if g.extreme {
+		// numeric extremes as symbolic classes (ZKV.tla Ord): tiny, 9e18, 2^63, 1e19, infinity, -0
+		scores = append(scores, scTiny, -scTiny, sc9e18, -sc9e18, sc2p63, -sc2p63, sc1e19, -sc1e19, scInf, -scInf, scNegZero)
+		bounds = append(append([]int{}, scores[:7]...), scTiny, -scTiny, sc9e18, -sc9e18, sc2p63, -sc2p63, sc1e19, -sc1e19)
+	}
 	if !smReadCmds[name] {
 		c.T = g.tick()
 	}
@@ -1684,6 +1788,17 @@ func (g *smGen) next() *smCmd {
 		c.A = []int{r.Intn(4), vid()}
 	case "getrange", "lrange", "ltrim", "zrange", "zrevrange", "zremrangebyrank":
 		c.A = []int{idx(), idx()}
+		if name[0] == 'z' {
+			// rank ranges whose nominal length exceeds the documented batch limit (5000) answer an error by
+			// design (user guide); the int64 extremes are for strings and lists only
+			for i := range c.A {
+				if c.A[i] > 1000 {
+					c.A[i] = 100
+				} else if c.A[i] < -1000 {
+					c.A[i] = -100
+				}
+			}
+		}
 		if r.Intn(10) == 0 {
 			c.A = [][]int{{0, -1}, {0, 100}, {-100, -1}, {1, 0}, {2, 2}}[r.Intn(5)] // whole range, empty range, one element
 		}
@@ -1720,7 +1835,7 @@ func (g *smGen) next() *smCmd {
 	case "zincrby":
 		c.A = []int{[]int{1, 2, -1, 3, 0}[r.Intn(5)], sub()}
 	case "zrangebyscore", "zrevrangebyscore", "zcount", "zremrangebyscore":
-		c.A = g.iv(scores)
+		c.A = g.iv(bounds)
 	case "zrangebylex", "zlexcount", "zremrangebylex":
 		ids := []int{}
 		for i := 1; i <= g.ns; i++ {
@@ -1911,6 +2026,7 @@ func smsim(args []string) error {
 	obsAll := fs.Int("obsall", 10, "observe all keys of all types every this many writes (0 = never)")
 	group := fs.Int("group", 1, "random mode: apply up to this many commands on distinct keys as one raft entry batch")
 	overlong := fs.Bool("overlong", true, "random mode: now and then a write names an over-long (> 10240 bytes) field/member")
+	extreme := fs.Bool("extreme", true, "random mode: numeric extremes (scores +-inf, +-1e19, +-2^63, +-9e18, +-1e-300, -0; indexes int64 min/max)")
 	equalNs := fs.Bool("equalns", false, "all commands of a tick carry the same nanosecond timestamp (isolate stage)")
 	avoid := fs.String("avoid", "", "avoid constraints: kind:cmd,cmd;kind:cmd  (kinds: dead clock always emptyval)")
 	nk := fs.Int("nk", 2, "keys used (<= 4)")
@@ -2059,7 +2175,7 @@ func smsim(args []string) error {
 	case *nrand > 0:
 		mode = "random"
 		for i := 0; i < *nrand; i++ {
-			g := &smGen{rng: d.rng, nk: *nk, ns: *ns, types: *types, dup: *dup, expiry: *expiry, window: *window, maxT: *maxT, overlong: *overlong}
+			g := &smGen{rng: d.rng, nk: *nk, ns: *ns, types: *types, dup: *dup, expiry: *expiry, window: *window, maxT: *maxT, overlong: *overlong, extreme: *extreme}
 			if *only != "" {
 				g.only = strings.Split(*only, ",")
 			}
